@@ -3,7 +3,7 @@ CONSTANTS
   Atomic = TRUE
   SkipTruth = TRUE
   MaxRuns = 2
-  BySpelling = FALSE
+  BySpelling = TRUE
 INVARIANT Agreement
 INVARIANT TruthUntouched
 INVARIANT ReportTruthful
